@@ -447,6 +447,16 @@ func genC03(g *Gen) {
 		g.add("phyencfrm " + k + " " + f)
 		g.add("phydecfrm " + k + " " + f)
 	}
+	// FRMPayload without an FPort (a frame the encoder refuses): the encryption methods still transform it, or report an error;
+	// they never answer success having done nothing
+	for _, n := range []int{1, 5, 15, 16, 17, 32, 64} {
+		for mt := 2; mt <= 5; mt++ {
+			f := fmt.Sprintf("%d 0 %s MAC %d 00000 %d 0 - 1 D:%s", mt, hx(g.r.Bytes(4)), g.r.U32(), g.r.U32Edge(), hx(g.r.Bytes(n)))
+			k := g.key()
+			g.add("phyencfrm " + k + " " + f)
+			g.add("phydecfrm " + k + " " + f)
+		}
+	}
 }
 
 // ---- C04: join MICs and join-accept encryption
